@@ -1,7 +1,7 @@
 (* PropC10.v — WATCH versions: every observable change of a key changes the version
    WATCH compares, reads and failed commands change nothing, EXEC runs iff no watched
    version moved, FLUSH resets versions to 0. *)
-From RE Require Import Base Resp State Exec Exec2 Bits Dispatch Lemmas.
+From RE Require Import Base Resp State Exec Exec2 Bits Lcs Sort Fnum Dispatch Lemmas.
 From Coq Require Import String.
 From Coq Require Import List.
 From Coq Require Import Lia.
@@ -54,7 +54,9 @@ Definition table : list (string * (Z -> db -> list bytes -> res)) :=
    ("pexpireat", cmd_expire msec false); ("ttl", cmd_ttl sec true); ("pttl", cmd_ttl msec true);
    ("expiretime", cmd_ttl sec false); ("pexpiretime", cmd_ttl msec false); ("persist", cmd_persist);
    ("setbit", cmd_setbit); ("getbit", cmd_getbit); ("bitcount", cmd_bitcount); ("bitpos", cmd_bitpos);
-   ("bitop", cmd_bitop); ("bitfield", cmd_bitfield false); ("bitfield_ro", cmd_bitfield true)].
+   ("bitop", cmd_bitop); ("bitfield", cmd_bitfield false); ("bitfield_ro", cmd_bitfield true);
+   ("lcs", cmd_lcs); ("sort", cmd_sort); ("incrbyfloat", cmd_incrbyfloat);
+   ("hincrbyfloat", cmd_hincrbyfloat)].
 
 Fixpoint tlook (t : list (string * (Z -> db -> list bytes -> res))) (name : bytes) :=
   match t with
@@ -62,8 +64,10 @@ Fixpoint tlook (t : list (string * (Z -> db -> list bytes -> res))) (name : byte
   | (s, f) :: r => if bytes_eqb name (s2b s) then Some f else tlook r name
   end.
 
+(* both sides are normalised to the same [if]-chain first, so that a table that lacks an entry
+   of [data_cmd] makes this fail at once (plain [reflexivity] then backtracks for hours) *)
 Lemma data_cmd_tlook name : data_cmd name = tlook table name.
-Proof. reflexivity. Qed.
+Proof. cbv [data_cmd table tlook]. reflexivity. Qed.
 
 Lemma tlook_in t name f : tlook t name = Some f -> exists s, name = s2b s /\ In (s, f) t.
 Proof.
@@ -99,7 +103,7 @@ Ltac unf :=
      cmd_smismember cmd_smembers cmd_smove cmd_srandmember cmd_sscan cmd_setop cmd_setop_store
      cmd_sintercard cmd_del cmd_exists cmd_touch cmd_type cmd_rename cmd_copy cmd_keys cmd_randomkey
      cmd_dbsize cmd_scan cmd_expire cmd_ttl cmd_persist cmd_setbit cmd_getbit cmd_bitcount cmd_bitpos
-     cmd_bitop cmd_bitfield set_core incr_core expire_core lmove_core store_str_or_del].
+     cmd_bitop cmd_bitfield cmd_incrbyfloat cmd_hincrbyfloat set_core incr_core expire_core lmove_core store_str_or_del].
 
 (* ------------------------------------------------------------------ *)
 (* every state a command produces is reached by a sequence of put/del *)
@@ -297,6 +301,45 @@ Lemma r_bitop  now d a : reach d (fst (cmd_bitop now d a)).
 Proof. rgo. Qed.
 Lemma r_bitfield ro now d a : reach d (fst (cmd_bitfield ro now d a)).
 Proof. rgo. Qed.
+Lemma r_incrbyfloat now d a : reach d (fst (cmd_incrbyfloat now d a)).
+Proof. rgo. Qed.
+Lemma r_hincrbyfloat now d a : reach d (fst (cmd_hincrbyfloat now d a)).
+Proof. rgo. Qed.
+
+(* LCS and SORT are walked along the head match only (their replies contain many matches) *)
+Ltac hs10 t :=
+  lazymatch t with
+  | fst ?x => hs10 x
+  | snd ?x => hs10 x
+  | match ?x with _ => _ end => hs10 x
+  | _ => t
+  end.
+Ltac head_fst :=
+  repeat (lazymatch goal with
+          | |- context[fst (match _ with _ => _ end)] =>
+            match goal with |- context[fst (match ?x with _ => _ end)] => let y := hs10 x in destruct y end
+          end).
+(* LCS never writes *)
+Lemma o_lcs now d a : fst (cmd_lcs now d a) = d.
+Proof. unfold cmd_lcs. head_fst. all: reflexivity. Qed.
+Lemma r_lcs now d a : reach d (fst (cmd_lcs now d a)).
+Proof. rewrite o_lcs. apply reach_refl. Qed.
+(* SORT writes only with STORE: one put_or_del on the destination *)
+Lemma sort_shape now d a :
+  fst (cmd_sort now d a) = d \/
+  exists dst l n, fst (cmd_sort now d a) = put_list d dst l None /\ snd (cmd_sort now d a) = RInt n.
+Proof.
+  unfold cmd_sort. cbv zeta.
+  repeat (lazymatch goal with
+          | |- fst (match _ with _ => _ end) = _ \/ _ =>
+            match goal with |- fst ?T = _ \/ _ => let y := hs10 T in destruct y end
+          end).
+  all: cbn [fst snd]; first [left; reflexivity | right; eexists; eexists; eexists; split; reflexivity].
+Qed.
+Lemma r_sort now d a : reach d (fst (cmd_sort now d a)).
+Proof.
+  destruct (sort_shape now d a) as [->|(dst & l & n & -> & _)]; auto with rch.
+Qed.
 
 Lemma reach_table : Forall (fun sf => forall now d a, reach d (fst (snd sf now d a))) table.
 Proof.
@@ -397,6 +440,10 @@ Proof.
   apply Forall_cons; [exact r_bitop|].
   apply Forall_cons; [exact (r_bitfield false)|].
   apply Forall_cons; [exact (r_bitfield true)|].
+  apply Forall_cons; [exact r_lcs|].
+  apply Forall_cons; [exact r_sort|].
+  apply Forall_cons; [exact r_incrbyfloat|].
+  apply Forall_cons; [exact r_hincrbyfloat|].
   apply Forall_nil.
 Qed.
 
@@ -555,6 +602,21 @@ Proof.
   intros k e [H|[]]. injection H as <- <-. vm_compute. split; discriminate.
 Qed.
 
+(* SORT ... STORE and INCRBYFLOAT are modifications (fresh version for the written key, the
+   source keeps its version); SORT without STORE and LCS leave the record alone *)
+Example C10_sort_lcs_ex :
+  let d := fst (cmd_push false false 0 empty_db [s2b "l"; s2b "2"; s2b "1"]) in
+  let d := fst (cmd_set 0 d [s2b "s"; s2b "1.5"]) in
+  let d1 := fst (cmd_sort 0 d [s2b "l"; s2b "STORE"; s2b "s"]) in
+  let d2 := fst (cmd_incrbyfloat 0 d [s2b "s"; s2b "0.25"]) in
+  ver_of 0 d (s2b "s") = 2%N /\ ver_of 0 d1 (s2b "s") = 3%N /\ ver_of 0 d1 (s2b "l") = 1%N /\
+  vis 0 d1 (s2b "s") = Some (VList [s2b "1"; s2b "2"], None) /\
+  ver_of 0 d2 (s2b "s") = 3%N /\ vis 0 d2 (s2b "s") = Some (VStr (s2b "1.75"), None) /\
+  fst (cmd_sort 0 d [s2b "l"; s2b "DESC"]) = d /\ fst (cmd_lcs 0 d [s2b "s"; s2b "s"]) = d /\
+  data_cmd (s2b "sort") = Some cmd_sort /\ data_cmd (s2b "lcs") = Some cmd_lcs /\
+  data_cmd (s2b "incrbyfloat") = Some cmd_incrbyfloat.
+Proof. repeat split; try reflexivity; vm_compute; reflexivity. Qed.
+
 (* ------------------------------------------------------------------ *)
 (* C10.2  reads and failed commands do not modify anything *)
 Ltac ogo := unf; bms; reflexivity.
@@ -658,7 +720,7 @@ Definition ro_names : list string :=
    "hgetall"; "hkeys"; "hvals"; "hlen"; "hexists"; "hstrlen"; "hrandfield"; "hscan"; "scard"; "sismember";
    "smismember"; "smembers"; "srandmember"; "sscan"; "sinter"; "sunion"; "sdiff"; "sintercard"; "exists";
    "touch"; "type"; "keys"; "randomkey"; "dbsize"; "scan"; "ttl"; "pttl"; "expiretime"; "pexpiretime";
-   "getbit"; "bitcount"; "bitpos"; "bitfield_ro"].
+   "getbit"; "bitcount"; "bitpos"; "bitfield_ro"; "lcs"].
 
 Lemma ro_table : Forall (fun s => exists f, data_cmd (s2b s) = Some f /\ forall now d a, fst (f now d a) = d) ro_names.
 Proof.
@@ -707,6 +769,7 @@ Proof.
   apply Forall_cons; [exists (cmd_bitcount); split; [reflexivity | exact o_bitcount]|].
   apply Forall_cons; [exists (cmd_bitpos); split; [reflexivity | exact o_bitpos]|].
   apply Forall_cons; [exists (cmd_bitfield true); split; [reflexivity | exact o_bitfield_ro]|].
+  apply Forall_cons; [exists (cmd_lcs); split; [reflexivity | exact o_lcs]|].
   apply Forall_nil.
 Qed.
 
@@ -908,6 +971,17 @@ Lemma e_bitop  now d a : forall s, snd (cmd_bitop now d a) = RErr s -> fst (cmd_
 Proof. ego. Qed.
 Lemma e_bitfield ro now d a : forall s, snd (cmd_bitfield ro now d a) = RErr s -> fst (cmd_bitfield ro now d a) = d.
 Proof. ego. Qed.
+Lemma e_lcs now d a : forall s, snd (cmd_lcs now d a) = RErr s -> fst (cmd_lcs now d a) = d.
+Proof. intros s _. apply o_lcs. Qed.
+Lemma e_sort now d a : forall s, snd (cmd_sort now d a) = RErr s -> fst (cmd_sort now d a) = d.
+Proof.
+  intros s H. destruct (sort_shape now d a) as [E|(dst & l & n & _ & E)]; [exact E|].
+  rewrite E in H. discriminate.
+Qed.
+Lemma e_incrbyfloat now d a : forall s, snd (cmd_incrbyfloat now d a) = RErr s -> fst (cmd_incrbyfloat now d a) = d.
+Proof. ego. Qed.
+Lemma e_hincrbyfloat now d a : forall s, snd (cmd_hincrbyfloat now d a) = RErr s -> fst (cmd_hincrbyfloat now d a) = d.
+Proof. ego. Qed.
 
 Lemma err_table : Forall (fun sf => forall now d a s, snd (snd sf now d a) = RErr s -> fst (snd sf now d a) = d) table.
 Proof.
@@ -1008,6 +1082,10 @@ Proof.
   apply Forall_cons; [exact e_bitop|].
   apply Forall_cons; [exact (e_bitfield false)|].
   apply Forall_cons; [exact (e_bitfield true)|].
+  apply Forall_cons; [exact e_lcs|].
+  apply Forall_cons; [exact e_sort|].
+  apply Forall_cons; [exact e_incrbyfloat|].
+  apply Forall_cons; [exact e_hincrbyfloat|].
   apply Forall_nil.
 Qed.
 
